@@ -162,6 +162,20 @@ CLAIMED = {
         note="Trusted: Lean kernel, Gate table model, C04's validation theorems, sim_drv; cryptographic unforgeability is assumed.",
         technique="Lean 4 proof of gate kernels + paired non-interference simulation of real agents",
         design="5/C03"),
+    "C02": dict(
+        text="PARTIAL. Lean 4 theorems: the scatter/gather copy helpers are exact for every buffer layout (compact = prefix of the "
+             "concatenation, scatter writes a prefix and reports its length, round trip), the ICE-TCP split of a message given as any "
+             "number of buffers (empty ones included) yields non-empty frames of at most 0xF800 bytes whose concatenation in order is "
+             "the message, and the demultiplexer delivers everything that is not claimed by the STUN handler at full validated length "
+             "(lookalike payloads are not swallowed). Tied to the real helpers on exactly-sized heap blocks, and end to end by "
+             "simulating two real agents per transport (UDP with loss, ICE-TCP over loopback TCP, pseudo-TCP reliable mode) with "
+             "messages of 1..65535 bytes (TCP up to 3*0xF800) split over 1..8 buffers, random / STUN-lookalike / RTP payloads: "
+             "bytes, boundaries, order and piece lengths are compared. One genuine defect found this way was fixed (a5ed163). "
+             "RFC 4571 reassembly is C17's theorem, the reliable byte stream is C08's.",
+        note="Trusted: Lean kernel, Copy/Gate models, kern_drv + sim_drv harnesses, kernel TCP/UDP semantics; bytestream-TCP mode and "
+             "receive-buffer layouts of nice_agent_recv_messages are not explored.",
+        technique="Lean 4 proof of copy/split kernels + differential correspondence + per-transport simulation",
+        design="5/C02"),
 }
 
 NA_REASON = "not yet decided by the framework at this commit (model/theorems under construction); not claimed"
